@@ -51,7 +51,8 @@ func c23History(r *rand.Rand) []string {
 		hints = append(hints, p)
 	}
 	return kvh.Gen(r, kvh.GenCfg{Header: header, Handles: handles, NOps: 10 + r.Intn(50),
-		BigValues: r.Intn(15) == 0, SweepPairs: 8, KeyHints: hints})
+		BigValues: r.Intn(15) == 0, SweepPairs: 8, KeyHints: hints,
+		Reopen: base != "mem" && r.Intn(3) == 0, ECompact: r.Intn(3) == 0, Live: r.Intn(8) == 0})
 }
 
 func c23Gen(r *rand.Rand, n int, tier string, emit func(input ...string)) {
